@@ -162,7 +162,7 @@ _cli_counter = [0]
 _cli_lock = threading.Lock()
 
 
-def run_cli(argv, files=None, stdin=b"", mtimes=None, timeout=60, keep=False, env_extra=None, read_back=None):
+def run_cli(argv, files=None, stdin=b"", mtimes=None, timeout=60, keep=False, env_extra=None, read_back=None, cwd_sub=None):
     """run the REAL cfn-guard binary (built from /repo) in a scratch directory; `{DIR}` in argv is
     replaced by that directory.  Returns dict(code, stdout, stderr)."""
     with _cli_lock:
@@ -193,7 +193,8 @@ def run_cli(argv, files=None, stdin=b"", mtimes=None, timeout=60, keep=False, en
         else:
             env[k] = v
     try:
-        p = subprocess.run(args, input=stdin if isinstance(stdin, bytes) else stdin.encode(), cwd=d,
+        p = subprocess.run(args, input=stdin if isinstance(stdin, bytes) else stdin.encode(),
+                           cwd=os.path.join(d, cwd_sub) if cwd_sub else d,      # a sub-directory of the job as working directory
                            stdout=subprocess.PIPE, stderr=subprocess.PIPE, timeout=timeout, env=env)
         out = {"code": p.returncode if p.returncode >= 0 else "signal%d" % -p.returncode,
                "stdout": p.stdout.decode("utf-8", "replace").replace(d, "{DIR}").replace(d.lstrip("/"), "{DIR}"),
